@@ -256,7 +256,7 @@ class Enumerator:
     def __init__(self, prog, finfo, env0=None, inline=None, writes=None,
                  max_paths=60000, max_depth=3, loop_iters=(0, 1),
                  handler_paths=True, track_attrs=True, quantifiers=True,
-                 comps=False, split_returns=False):
+                 comps=False, split_returns=False, unroll=True):
         self.prog = prog
         self.finfo = finfo
         self.inline = inline
@@ -269,6 +269,7 @@ class Enumerator:
         self.quantifiers = quantifiers
         self.comps = comps
         self.split_returns = split_returns
+        self.unroll = unroll
         self.defs = {}
         self._n = 0
         self._stack = []
@@ -386,6 +387,17 @@ class Enumerator:
                                   ast.ListComp, ast.SetComp, ast.DictComp,
                                   ast.GeneratorExp, ast.Lambda)):
                     # the value of such an expression is never None
+                    return False
+                d = self.defs.get(a.id) if isinstance(a, ast.Name) else a
+                if isinstance(d, ast.Call) and isinstance(
+                        d.func, ast.Name) and d.func.id in self.NEVER_NONE \
+                        and self.prog.resolve(
+                            self._stack[-1].module, d.func) == \
+                        'builtin:' + d.func.id:
+                    return False
+                if isinstance(d, (ast.List, ast.Tuple, ast.Dict, ast.Set,
+                                  ast.JoinedStr, ast.ListComp, ast.SetComp,
+                                  ast.DictComp, ast.GeneratorExp)):
                     return False
             if isinstance(op, ast.In) and isinstance(a, ast.Constant) \
                     and isinstance(b, (ast.List, ast.Tuple, ast.Set)) \
@@ -916,6 +928,11 @@ class Enumerator:
             else:
                 yield s, acc, None
 
+    NEVER_NONE = ('str', 'int', 'float', 'bool', 'len', 'repr', 'tuple',
+                  'list', 'dict', 'set', 'frozenset', 'sorted', 'isinstance',
+                  'type', 'abs', 'sum', 'any', 'all', 'bytes', 'range',
+                  'enumerate', 'zip', 'map', 'filter', 'reversed', 'iter')
+
     PURE_BUILTINS = ('len', 'isinstance', 'bool', 'str', 'int', 'float',
                      'tuple', 'frozenset', 'abs', 'repr', 'callable',
                      'issubclass', 'hasattr')
@@ -1283,8 +1300,36 @@ class Enumerator:
                     out.add(n.id)
         return out
 
+    def _for_unrolled(self, node, elts, st, handlers, i=0):
+        """for x in (a, b, ...): the body once per element, in order."""
+        line = node.lineno
+        if i >= len(elts):
+            yield from self.block(node.orelse, st, handlers)
+            return
+        for s, v, rs in self.eval_value(elts[i], st, handlers):
+            if rs is not None:
+                yield s, rs
+                continue
+            if s is st:
+                s = st.fork()
+            self._assign_target(node.target, v, s, line)
+            for s2, status in self.block(node.body, s, handlers):
+                if status[0] in ('next', 'continue'):
+                    yield from self._for_unrolled(node, elts, s2, handlers,
+                                                  i + 1)
+                elif status[0] == 'break':
+                    yield s2, ('next',)
+                else:
+                    yield s2, status
+
     def _for(self, node, st, handlers):
         line = node.lineno
+        if isinstance(node.iter, (ast.Tuple, ast.List)) and 0 < len(
+                node.iter.elts) <= 4 and not any(
+                    isinstance(e, ast.Starred) for e in node.iter.elts) \
+                and self.unroll:
+            yield from self._for_unrolled(node, node.iter.elts, st, handlers)
+            return
         s0 = st.fork()
         it = subst(node.iter, s0.env)
         if has_call(it):
